@@ -904,6 +904,127 @@ class StreamConsume(Unit):
                 ex.oblige(s, 'exit(raise): only element #k\'s own error (exceptions not returned) after outputs 0..k-1, or the feeder\'s failure after EVERY element it had delivered was answered', z3.Or(own, feeder))
 
 
+# ================================================================ routing and codecs
+route_of = z3.Function('route_registered_under', Val, Val)
+
+
+class HandleRequest(Unit):
+    """SocketApplication.handle_request(path, data): the outcome of awaiting the route registered under THIS path, called with this data (without argument when the
+    data is None -- the documented convention for argument-less routes)."""
+    prop = 'C18'
+    file = F
+    qual = 'SocketApplication.handle_request'
+    canaries = (('request dispatched to another route', 'return await self._routes[path](data)', "return await self._routes['/'](data)", ''),
+                ('payload dropped', 'return await self._routes[path](data)', 'return await self._routes[path]()', ''))
+
+    def setup(self, ex):
+        st = St()
+        self.path, self.data = z3.Const('path', Val), z3.Const('data', Val)
+        self.known = z3.Bool('path_is_registered')
+        st.ghost['calls'] = ()
+        unit = self
+        self.out = z3.Function('route_result', Val, Val, Val)
+
+        class Routes(Obj):
+            def getitem(self_, e, s, idx, node):
+                s1 = s.fork().assume(unit.known)
+                s2 = s.fork().assume(z3.Not(unit.known))
+                key = box(e, idx)
+
+                def call(e2, s3, a, k, n):
+                    s3 = s3.fork()
+                    s3.ghost['calls'] = s3.ghost['calls'] + ((key, [box(e2, x) for x in a]),)
+                    exc = fresh('route_exc')
+                    s4 = s3.fork().assume(V.isinst(exc, 'Exception'), *V.cls_facts(exc))
+                    s4.ghost['route_exc'] = exc
+                    return [('ok', s3, unit.out(key, box(e2, a[0]) if a else NONE)), ('raise', s4, exc)]
+                return [x for x in (('ok', s1, Fn(call)), e.raise_new(s2, 'KeyError')) if e.feasible(x[1])]
+        st.env.update(self=Rec(ex, 'self', immutable=True).init(st, _routes=Routes(ex, 'routes')), path=self.path, data=self.data)
+        return st
+
+    def post(self, ex, outs):
+        for k, s, p in outs:
+            calls = s.ghost['calls']
+            if not calls:
+                ex.oblige(s, 'exit(raise): nothing is called only for a path that is not registered (KeyError, returned to the requester as a RemoteException by the server loop)', z3.And(z3.BoolVal(k == 'raise'), z3.Not(self.known)))
+                continue
+            ok = len(calls) == 1
+            args_ok = z3.If(self.data == NONE, z3.BoolVal(len(calls[0][1]) == 0), z3.And(z3.BoolVal(len(calls[0][1]) == 1), calls[0][1][0] == self.data if len(calls[0][1]) == 1 else z3.BoolVal(False))) if ok else z3.BoolVal(False)
+            res = (box(ex, p) == self.out(self.path, self.data)) if k in ('normal', 'return') else (p == s.ghost.get('route_exc', NONE))
+            ex.oblige(s, 'exit: exactly one call of the route registered under this path, with this data; its result is returned / its exception propagates', z3.And(z3.BoolVal(ok), calls[0][0] == self.path, args_ok, res))
+
+
+class AddRoute(Unit):
+    prop = 'C18'
+    file = F
+    qual = 'SocketApplication.add_route'
+    canaries = (('route registered under another key', 'self._routes[path] = route', 'self._routes[route] = path', ''),)
+
+    def setup(self, ex):
+        st = St()
+        self.path, self.route = z3.Const('path', Val), z3.Const('route', Val)
+        self.routes = SharedMap(ex, 'routes').init(st)
+        st.env.update(self=Rec(ex, 'self', immutable=True).init(st, _routes=self.routes), path=self.path, route=self.route)
+        return st
+
+    def interfere(self, ex, st, m, node):
+        pass
+
+    def post(self, ex, outs):
+        for k, s, p in outs:
+            ex.oblige(s, 'exit: the route is registered under exactly the given path', z3.And(z3.BoolVal(k in ('normal', 'return')), z3.Select(self.routes.arr(s), self.path) == self.route))
+
+
+class Codec(Unit):
+    """encode(data, encoder) / decode(bytes, encoder): pickle for 'pickle', utf-8 for 'utf8', the bytes themselves for 'none'; nothing else is accepted silently."""
+    prop = 'C18'
+    file = F
+    qual = 'encode'
+    direction = 'encode'
+    assert_mode = 'raise'
+    canaries = (('unknown encoder passes data through', "        raise ValueError(f\"expecting 'none' but got: {encoder}\")", '        pass', ''),)
+
+    def setup(self, ex):
+        st = St()
+        self.data, self.encoder = z3.Const('data', Val), z3.String('encoder')
+        st.env.update(data=self.data, encoder=self.encoder)
+        self.pd, self.pl = z3.Function('pickle_dumps', Val, Val), z3.Function('pickle_loads', Val, Val)
+        self.ue, self.ud = z3.Function('utf8_encode', Val, Val), z3.Function('utf8_decode', Val, Val)
+        ex.globals['pickle_dumps'] = Fn(lambda e, s, a, k, n: [('ok', s, self.pd(box(e, a[0])))])
+        ex.globals['pickle_loads'] = Fn(lambda e, s, a, k, n: [('ok', s, self.pl(box(e, a[0])))])
+        unit = self
+
+        class StrModel:
+            def getattr(self_, e, s, base, attr, node):
+                from pyvc.core import SymMethod
+                return [('ok', s, SymMethod(self_, base, attr))]
+
+            def call(self_, e, s, recv, name, args, kwargs, node):
+                return [('ok', s, (unit.ue if name == 'encode' else unit.ud)(recv))]
+        ex.sym_models['data'] = StrModel()
+        return st
+
+    def post(self, ex, outs):
+        E = self.encoder
+        for k, s, p in outs:
+            if k in ('normal', 'return'):
+                enc = self.direction == 'encode'
+                want = z3.If(E == z3.StringVal('pickle'), (self.pd if enc else self.pl)(self.data), z3.If(E == z3.StringVal('utf8'), (self.ue if enc else self.ud)(self.data), self.data))
+                ex.oblige(s, f'exit: {self.direction}s with the codec the encoder names (pickle / utf8 / bytes as they are); returns only for a known encoder',
+                          z3.And(box(ex, p) == want, z3.Or(E == z3.StringVal('pickle'), E == z3.StringVal('utf8'), E == z3.StringVal('none'))))
+            else:
+                ex.oblige(s, 'exit(raise): only for an unknown encoder', z3.Not(z3.Or(E == z3.StringVal('pickle'), E == z3.StringVal('utf8'), E == z3.StringVal('none'))))
+
+
+class Decode(Codec):
+    qual = 'decode'
+    direction = 'decode'
+    canaries = (('utf8 payload decoded with pickle', "    if encoder == 'utf8':\n        return data.decode('utf')", "    if encoder == 'utf8':\n        return pickle_loads(data)", ''),)
+
+
+ROUTING_UNITS = [HandleRequest, AddRoute, Codec, Decode]
+
+
 # ================================================================ named-pipe transport: _Pipe
 class PipeBase(Unit):
     prop = 'C18'
@@ -1079,7 +1200,7 @@ class PipeClientInit(PipeInit):
     canaries = ()
 
 
-UNITS = [WriteRecord, ReadRecord, FramingLemma, ServerReceiving, ServerResponding, ClientReceiving, ClientSending, ClientEnqueue, ClientRequest, PutInQueue, StreamFeed, StreamConsume] + PIPE_UNITS + [PipeInit, PipeClientInit]
+UNITS = [WriteRecord, ReadRecord, FramingLemma, ServerReceiving, ServerResponding, ClientReceiving, ClientSending, ClientEnqueue, ClientRequest, PutInQueue, StreamFeed, StreamConsume] + ROUTING_UNITS + PIPE_UNITS + [PipeInit, PipeClientInit]
 SCENARIOS = [('SocketClient.stream', 'replay/scenarios/c18_stream_poll_race.py'), ('', 'replay/scenarios/c18_transports.py')]
 BOUNDED = [{'function': 'OS byte stream, asyncio task scheduling, multiprocessing.Connection over FIFOs', 'method': 'runtime scenario replay/scenarios/c18_transports.py', 'bound': '19 payload shapes up to 3 MiB, 120 concurrent requesters on 2 connections, 40 x 200 KB back-to-back, 3 timeout/id-reuse rounds, 200 pipe round trips', 'counted_as_proved': False}]
 THOROUGH_SCENARIOS = [('', 'replay/scenarios/c18_transports.py', (1,), 400), ('', 'replay/scenarios/c18_transports.py', (7,), 400)]
